@@ -237,6 +237,20 @@ theorem putOrders_effect (os : List Order) : ∀ (db : DB), (∀ o ∈ os, o.WF)
       rw [DB.putOrders, hrest n hn.2, hother n hn.1]
 
 
+/-- (R) every writer of an order bucket – `SubmitOrder`, `updateOrder`, `copyOrder` and `storeBidTemplate` (the
+sidecar bid template) – stores the keys `order`, `order-min-units-match` and `order-tlv` **unconditionally**, and
+`order-tier` either unconditionally or under nothing but the is-a-bid type assertion; exactly four writes each.
+This is the shape `storeOrder` of the model has, so `order_roundtrip` / `bidTemplate_roundtrip` speak about what
+these writers store. -/
+theorem order_keys_written :
+    (Store.orderKeyWrites.map (·.1)) = ["storeBidTemplate", "SubmitOrder", "updateOrder", "copyOrder"] ∧
+    (Store.orderKeyWrites.all fun (_, cs) =>
+      cs.length == 4 &&
+      (["storeOrderTX", "storeOrderMinUnitsMatchTX", "storeOrderTlvTX"].all fun k => cs.contains (k, [])) &&
+      (cs.all fun (k, g) => k != "storeOrderMinNoderTierTX" ||
+        [[], ["newOrder.(*order.Bid); ok"], ["o.(*order.Bid); ok"]].contains g)) = true := by
+  decide
+
 /-- (R) transaction discipline, over the regenerated call table of clientdb's `*DB` methods: no decode call
 (`DeserializeOrder`, `deserializeOrderTlvData`, `deserializeAccount`, `deserializeLocalBatchSnapshot`,
 `ReadElement(s)`, `fetchOrderTX`, …, `bytes.NewReader`) sits in a method body outside a function literal, i.e.
